@@ -385,6 +385,10 @@ def evaluate_terms(mods, terms, wd, nproc):
     return c15_worker.run_jobs_retry(srcs, make_expr_job(mods), nproc, str(wd / "sandbox"), suspect_result)
 
 
+def glist_str(names) -> str:
+    return "[" + "; ".join(T.gstr(n) for n in names) + "]"
+
+
 def _step_signature(step: dict, r: dict):
     """what a step delivered, for the comparison between a fresh process and a process with a history"""
     if r is None:
@@ -598,6 +602,41 @@ def _check(run: common.Run):
     ts = time.time()
     h_failures, h_expr, h_dependent, h_cases, h_steps = history_stage(mods, wd, nproc, hist)
     disagreements.extend(h_dependent[:20])
+    # every literal_value step, whatever its place in its history, against LitValRbModel.lv_rb (rebound set, expr)
+    rb_items = []
+    for rb, src, lvo, where in h_cases:
+        try:
+            t = T.of_ast(ast.parse(src, mode="eval").body)
+            rb_items.append((f"({glist_str(rb)}, {T.gexpr(t)}, {T.glv(lvo if lvo[0] != 'hang' else ('crash', 'Hang'))})",
+                             rb, src, lvo, where))
+        except (ValueError, KeyError, AssertionError):
+            hist["history:not-in-the-model-language"] += 1
+    rfiles, rshards = [], []
+    for k in range(0, len(rb_items), SHARD):
+        shard = rb_items[k:k + SHARD]
+        pth = wd / f"rbcases_{k // SHARD}.v"
+        pth.write_text(IMPORTS + "Require Import Pyrefact.LitValRbModel.\n"
+                       "Definition cases : list (list string * expr * lvres) := [\n "
+                       + ";\n ".join(c[0] for c in shard) + "\n].\n"
+                       "Eval vm_compute in (bad_idx rb_case_ok cases).\n"
+                       "Eval vm_compute in (List.length (filter rb_case_claims cases)).\n")
+        rfiles.append(pth)
+        rshards.append(shard)
+    rres = common.run_case_files(rfiles)
+    rb_claims = 0
+    for pth, shard in zip(rfiles, rshards):
+        rc, out = rres[pth]
+        idx = common.parse_nat_list(out) if rc == 0 else None
+        if idx is None:
+            disagreements.append({"kind": "eval-failed", "file": pth.name, "log": out[-1500:]})
+            continue
+        rb_claims += parse_count(out)
+        for i in idx:
+            _, rb, src, lvo, where = shard[i]
+            disagreements.append({"kind": "rebound-case", "expr": src, "names_the_source_rebinds": rb,
+                                  "literal_value": list(map(str, lvo)), **where,
+                                  "problem": "core.literal_value on this node differs from LitValRbModel.lv_rb "
+                                             "(rebound names, expression)"})
     stage["history"] = round(time.time() - ts, 1)
 
     # ---- end-to-end oracle (deterministic sweep): rules + format_code on programs around expressions
@@ -793,7 +832,7 @@ def _check(run: common.Run):
         samples=samples, exhaustive=(run.tier != "quick"), exhaustive_level1=n_l1, level2_total=l2_all,
         level2_run=len(l2), primitive_cases_total=prim_all, primitive_cases_run=len(prim), random_cases=nrand, model_claims=claims, histogram=dict(hist),
         correspondence_disagreements=len(disagreements),
-        history={"steps": h_steps, "expression_violations": len(h_expr), "history_dependent_results": len(h_dependent),
+        history={"steps": h_steps, "model_cases": len(rb_items), "model_claims": rb_claims, "expression_violations": len(h_expr), "history_dependent_results": len(h_dependent),
                  "program_failures": len(h_failures)},
         sweep={"programs": len(jobs), "rewritten": changed, "failures": len(failures),
                "failures_matched_to_findings": len(failures) - len(unmatched)},
